@@ -332,7 +332,7 @@ class Grammar:
             out = [self.kw('CASE')]
             for _ in range(self.r.randint(1, 2)):
                 out += [self.kw('WHEN')] + self.cond(0) + [self.kw('THEN')] + self.pstmt(0, forms) + [';']
-            return out + [self.kw('END'), self.kw('CASE')]
+            return out + [self.kw('END CASE')]
         raise ValueError(f)
 
     def proc(self, d=2, forms=('if', 'while_do', 'loop', 'block', 'case_expr'), declare=False):
